@@ -83,11 +83,13 @@ def run(tier):
     thorough = tier == "thorough"
     ctx.design("CodecAvro", "MC_CodecAvro.cfg", "21 field types x representability classes x second-descriptor kinds", workers=4)
     ctx.sensitivity("CodecAvro", "MC_CodecAvro_dev.cfg", "a mixed-type test by name only must violate MixedRefused", "MixedRefused", workers=4)
+    if thorough:
+        ctx.sensitivity("CodecAvro", "MC_CodecAvro_dev2.cfg", "a mixed-type test skipped for the descriptor seen last must violate MixedRefused", "MixedRefused", workers=4)
     tmp = common.scratch("c19")
     cases = []
     uniq = [0]
 
-    def history(T, c, value, probe_kind, layout):
+    def history(T, c, value, probe_kind, layout, times=1):
         uniq[0] += 1
         p = os.path.join(tmp, "o.avro")
         if os.path.exists(p):
@@ -114,16 +116,19 @@ def run(tier):
         try:
             for i in range(good_before):
                 w.write(good(i + 1))
-            try:
-                if probe_kind == "value":
-                    w.write(D(99, value, _generated=gen.GEN))
-                elif probe_kind == "second-same-name":
-                    w.write((G if goodD is D else D)(99, "x" if goodD is D else None, _generated=gen.GEN))
-                else:
-                    w.write(O(99, None, _generated=gen.GEN))
-            except Exception as e:
-                refused = True
-                case["exc"] = type(e).__name__ + ":" + str(e)[:60]
+            refusals = 0
+            for _k in range(times):          # `times` CONSECUTIVE records of the foreign type (a caller that carries on after the error)
+                try:
+                    if probe_kind == "value":
+                        w.write(D(99, value, _generated=gen.GEN))
+                    elif probe_kind == "second-same-name":
+                        w.write((G if goodD is D else D)(99, "x" if goodD is D else None, _generated=gen.GEN))
+                    else:
+                        w.write(O(99, None, _generated=gen.GEN))
+                except Exception as e:
+                    refusals += 1
+                    case["exc"] = type(e).__name__ + ":" + str(e)[:60]
+            refused = refusals == times
             for i in range(good_after):
                 w.write(good(10 + i))
         except Exception as e:
@@ -189,8 +194,10 @@ def run(tier):
     for T in ("varint", "string", "path"):
         for kind in ("second-same-name", "second-other-name"):
             for layout in ("middle", "last"):
-                cases.append(history(T, "none", None, kind, layout))
-                ctx.case((T, kind, layout))
+                for times in (1, 3):
+                    cases.append(history(T, "none", None, kind, layout, times))
+                    cases[-1]["times"] = times
+                    ctx.case((T, kind, layout, times))
     ctx.sample({"case": cases[1]})
     ctx.sample({"case": cases[-1]})
     path = os.path.join(common.scratch("c19t"), "cases.json")
